@@ -1,6 +1,7 @@
 package checks
 
 import (
+	ipfslog "berty.tech/go-ipfs-log"
 	"bytes"
 	"context"
 	"encoding/json"
@@ -36,6 +37,12 @@ type CaseC13 struct {
 	// MidWrite: a goroutine keeps writing small local entries while the snapshot is being saved (the log grows
 	// under SaveSnapshot); the saved database is then any state between the one before and the one after
 	MidWrite bool `json:"mid_write,omitempty"`
+	// PreHeld > 0: the store that loads the snapshot is not empty - it has already been handed one of the saved
+	// heads (number PreHeld-1 in the saved order, modulo their count; from 100 on: all but that one) by Sync
+	PreHeld int `json:"pre_held,omitempty"`
+	// EarlySave > 0: a snapshot is also saved after step EarlySave-1 of the history (its result is not used:
+	// the snapshot that is checked is the one saved at the end)
+	EarlySave int `json:"early_save,omitempty"`
 }
 
 func genSizeC13(rt *rapid.T) int {
@@ -82,7 +89,23 @@ func genC13(rt *rapid.T) CaseC13 {
 	if c.Others > 0 {
 		c.Pending = rapid.Bool().Draw(rt, "pending")
 	}
+	if n > 0 && rapid.IntRange(0, 2).Draw(rt, "early") == 0 {
+		c.EarlySave = rapid.IntRange(1, n).Draw(rt, "earlySave")
+		if c.Others > 0 && rapid.Bool().Draw(rt, "quietAfter") {
+			// nothing is written locally between the two saves: only other writers' entries arrive
+			for i := c.EarlySave; i < len(c.Steps); i++ {
+				if c.Steps[i].Kind == "local" {
+					c.Steps[i].Kind = "remote"
+					c.Steps[i].W = 1 + i%c.Others
+				}
+			}
+			c.Steps = append(c.Steps, StepC13{Kind: "merge", W: 1}, StepC13{Kind: "merge", W: c.Others})
+		}
+	}
 	c.MidWrite = rapid.IntRange(0, 2).Draw(rt, "midWrite") == 0
+	if !c.MidWrite && !c.Pending {
+		c.PreHeld = rapid.SampledFrom([]int{0, 0, 1, 2, 3, 101, 102}).Draw(rt, "preHeld")
+	}
 	return c
 }
 
@@ -194,6 +217,11 @@ func execC13(c CaseC13) (out *Outcome) {
 			}
 			replicated = true
 		}
+		if c.EarlySave == i+1 && cl.Stores[0].OpLog().Len() > 0 {
+			if _, err := basestore.SaveSnapshot(ctx, cl.Stores[0]); err == nil {
+				o.Labels = append(o.Labels, "saved-twice")
+			}
+		}
 	}
 	s0 := cl.Stores[0]
 	p0 := cl.W.Peers[0]
@@ -238,6 +266,7 @@ func execC13(c CaseC13) (out *Outcome) {
 			big = true
 		}
 	}
+	savedHeadEntries, _ := cloneHeads(world.Heads(s0))
 	savedSet := world.HashSet(s0)
 	savedOrder := world.Hashes(s0)
 	savedHeads := world.HeadHashes(s0)
@@ -353,6 +382,26 @@ func execC13(c CaseC13) (out *Outcome) {
 	s1, err := db.Open(ctx, cl.Addr, &orbitdb.CreateDBOptions{Replicate: &no})
 	if err != nil {
 		return fail("harness: reopen: %v", err)
+	}
+	if c.PreHeld > 0 && len(savedHeadEntries) > 0 {
+		var pre []ipfslog.Entry
+		k := (c.PreHeld%100 - 1 + len(savedHeadEntries)) % len(savedHeadEntries)
+		if c.PreHeld >= 100 {
+			for i, h := range savedHeadEntries {
+				if i != k {
+					pre = append(pre, h)
+				}
+			}
+		} else {
+			pre = []ipfslog.Entry{savedHeadEntries[k]}
+		}
+		if len(pre) > 0 {
+			if err := s1.Sync(ctx, pre); err != nil {
+				return fail("harness: Sync of saved heads into the fresh store: %v", err)
+			}
+			cl.W.WaitQuiescent([]iface.Store{s1}, nil, 3*time.Second)
+			o.Labels = append(o.Labels, fmt.Sprintf("loaded-into-a-store-holding-%d-of-%d-saved-heads", len(pre), len(savedHeadEntries)))
+		}
 	}
 	var loadErr error
 	func() {
